@@ -633,7 +633,9 @@ def _spine_positions(owner: ast.AST, field: str):
         elif isinstance(cur, ast.IfExp):
             owner, field, idx = cur, "test", None
         elif isinstance(cur, ast.Call):
-            if isinstance(cur.func, ast.Attribute):
+            if isinstance(cur.func, ast.Attribute) and _is_simple(cur.func.value) and cur.args and not isinstance(cur.args[0], ast.Starred):
+                owner, field, idx = cur, "args", 0
+            elif isinstance(cur.func, ast.Attribute):
                 owner, field, idx = cur.func, "value", None
             elif isinstance(cur.func, ast.Name):
                 yield cur, "func", None
